@@ -1183,3 +1183,63 @@ def no_stamp_validated_cache(ctx, R, modules, why):
     if not hits:
         out.append(ctx.ok(R, None, None, "no cache of file content validated by time stamp / size", construct="|".join(modules) + "|stamp-validated-cache", nontrivial=False))
     return out
+
+
+def one_shot_locals(ctx, R, modules):
+    """A local bound to a one-shot iterator - a generator expression, map()/filter()/zip(), or a call of a generator function of the package - is consumed
+    once: a membership test `x in it` advances the iterator up to the first match (and to the end when there is none), so asking it again - in the next
+    loop iteration, in a second test, in a second loop - answers from what is left. One aggregated instance per module."""
+    out = []
+    for mq in modules:
+        hit = None
+        n_locals = 0
+        for fi in ctx.prog.functions_of_module(mq):
+            pm = None
+            for a in body_nodes(fi):
+                if not (isinstance(a, ast.Assign) and len(a.targets) == 1 and isinstance(a.targets[0], ast.Name)):
+                    continue
+                v = a.value
+                one_shot = isinstance(v, ast.GeneratorExp) or (isinstance(v, ast.Call) and isinstance(v.func, ast.Name) and v.func.id in ("map", "filter", "zip", "iter")
+                                                                 and not (v.func.id == "iter" and len(v.args) != 1))
+                if not one_shot and isinstance(v, ast.Call):
+                    for g in common.targets_of_funcs(ctx, fi, v):
+                        if any(isinstance(x, (ast.Yield, ast.YieldFrom)) for st in g.node.body for x in walk_no_nested(st)) and not g.node.decorator_list:
+                            one_shot = True
+                if not one_shot:
+                    continue
+                nm = a.targets[0].id
+                # other bindings of the name in the function make the picture unclear: only names bound once
+                if sum(1 for x in body_nodes(fi) if isinstance(x, ast.Name) and x.id == nm and isinstance(x.ctx, ast.Store)) != 1:
+                    continue
+                n_locals += 1
+                pm = pm or ctx.parents(fi)
+                uses = []
+                for x in body_nodes(fi):
+                    if isinstance(x, ast.Name) and x.id == nm and isinstance(x.ctx, ast.Load):
+                        par = pm.get(id(x))
+                        in_loop = False
+                        cur = par
+                        while cur is not None and cur is not fi.node:
+                            if isinstance(cur, (ast.For, ast.While)) and not (isinstance(cur, ast.For) and cur.iter is x):
+                                in_loop = True
+                            if isinstance(cur, (ast.ListComp, ast.SetComp, ast.DictComp, ast.GeneratorExp)) and not any(g.iter is x for g in cur.generators[:1]):
+                                in_loop = True
+                            cur = pm.get(id(cur))
+                        member = isinstance(par, ast.Compare) and any(isinstance(o, (ast.In, ast.NotIn)) for o in par.ops) and any(c is x for c in par.comparators)
+                        uses.append((x, member, in_loop))
+                consuming = [u for u in uses]
+                bad = None
+                if any(m and lp for (_x, m, lp) in uses):
+                    bad = [x for (x, m, lp) in uses if m and lp][0]
+                elif len(consuming) >= 2 and any(m for (_x, m, _lp) in uses):
+                    bad = [x for (x, m, _lp) in uses if m][0]
+                if bad is not None and hit is None:
+                    hit = (fi, bad, nm, canon(v)[:50])
+        k = f"{mq}|one-shot-locals"
+        if hit:
+            fi, node, nm, src = hit
+            out.append(ctx.viol(R, fi, node, f"`{nm}` is a one-shot iterator ({src}) but is asked `... in {nm}` repeatedly: each membership test consumes it up to the first match (or to the "
+                                "end), so later tests miss elements that were passed by - the answer depends on the order of the questions", construct=k))
+        else:
+            out.append(ctx.ok(R, None, None, f"{mq}: no local one-shot iterator is used for repeated membership tests ({n_locals} one-shot local(s))", construct=k, nontrivial=False))
+    return out
